@@ -6,6 +6,8 @@ import (
 	"os"
 	"strings"
 
+	"github.com/mmcloughlin/avo/attr"
+	"github.com/mmcloughlin/avo/gotypes"
 	"github.com/mmcloughlin/avo/ir"
 	"github.com/mmcloughlin/avo/operand"
 	"github.com/mmcloughlin/avo/pass"
@@ -125,6 +127,11 @@ type allocCase struct {
 	// input-class counters (own traversal, before allocation): author-written RESTRICTED registers (SP views, K0) next to
 	// virtual registers of the same kind, and plain register-to-register moves by the class of their two sides
 	nVirtNextToRestricted, nMoveVirtRestricted, nMoveVirtPhys, nMoveVirtVirt int
+	// function-level context: the most virtual GP registers live at once (live-out sets before allocation), whether a
+	// virtual opmask register occurs, and the context class set by c01Decorate
+	maxLiveGP    int
+	usesVirtK    bool
+	contextClass string
 }
 
 type c01Snapshot struct{ ops, ins, outs []c01RoleReg }
@@ -205,6 +212,20 @@ func c01RunPipeline(fn *ir.Function) (c allocCase, ok bool, why string) {
 			}
 		}
 		c01CountClasses(&c, i, own)
+		liveGP := 0
+		for id := range i.LiveOut {
+			if id.IsVirtual() && id.Kind() == reg.KindGP {
+				liveGP++
+			}
+		}
+		if liveGP > c.maxLiveGP {
+			c.maxLiveGP = liveGP
+		}
+		for _, x := range own {
+			if x.r.ID().IsVirtual() && x.r.Kind() == reg.KindOpmask {
+				c.usesVirtK = true
+			}
+		}
 		var impl, uses, defs []reg.Register
 		if _, p := safely(func() error { impl, uses, defs = i.Registers(), i.InputRegisters(), i.OutputRegisters(); return nil }); p {
 			c.pre = append(c.pre, c01Stage("registers", "panic"))
@@ -257,6 +278,50 @@ func c01RunPipeline(fn *ir.Function) (c allocCase, ok bool, why string) {
 	c.bindReq, c.encReq, c.nIOPairs, shape = c01BindReqs(orig, is, "bind-shape")
 	c.pre = append(c.pre, shape...)
 	return c, true, ""
+}
+
+// c01Decorate gives a generated function the FUNCTION-LEVEL context a pass may look at besides the instructions: text
+// attributes (none, NOSPLIT, NOFRAME, NOSPLIT|NOFRAME, NEEDCTXT, … and arbitrary flag sets), a local frame or none, a
+// signature or the void default.  C03 quantifies over all functions: nothing of this may change which registers an
+// allocation hands out.  Returns the class name used by the sample floors.
+func c01Decorate(fn *ir.Function, r *rng) string {
+	type ac struct {
+		name string
+		a    attr.Attribute
+	}
+	c := pick(r, []ac{{"none", 0}, {"none", 0}, {"NOSPLIT", attr.NOSPLIT}, {"NOFRAME", attr.NOFRAME}, {"NOFRAME", attr.NOFRAME},
+		{"NOSPLIT_NOFRAME", attr.NOSPLIT | attr.NOFRAME}, {"NOSPLIT_NOFRAME", attr.NOSPLIT | attr.NOFRAME}, {"NEEDCTXT", attr.NEEDCTXT},
+		{"NOSPLIT_NEEDCTXT_NOFRAME", attr.NOSPLIT | attr.NEEDCTXT | attr.NOFRAME}, {"other", 0}})
+	if c.name == "other" {
+		c.a = attr.Attribute(r.intn(1 << 12))
+		if c.a.NOFRAME() {
+			c.name = "other_with_NOFRAME"
+		}
+	}
+	fn.Attributes = c.a
+	if r.chance(1, 3) {
+		fn.AllocLocal(8 * (1 + r.intn(16)))
+	}
+	if r.chance(1, 3) {
+		if sig, err := gotypes.ParseSignature(pick(r, []string{"func(x *[8]uint64, y uint64) uint64", "func(x, y, z uint64)", "func(b []byte) (n int, ok bool)"})); err == nil {
+			fn.SetSignature(sig)
+		}
+	}
+	return c.name
+}
+
+// c01ContextStats counts a BOUND function under its context class × what makes a wrong colour set visible.
+func c01ContextStats(stats map[string]int, prefix string, c *allocCase) {
+	if c.contextClass == "" {
+		return
+	}
+	stats[prefix+"attr:"+c.contextClass]++
+	if c.maxLiveGP >= 5 {
+		stats[prefix+"attr:"+c.contextClass+":gp_live_ge5"]++
+	}
+	if c.usesVirtK {
+		stats[prefix+"attr:"+c.contextClass+":virt_opmask"]++
+	}
 }
 
 // c01CountClasses records which input classes one instruction (before allocation) belongs to.
@@ -638,9 +703,17 @@ func init() {
 					return fn
 				}
 			}
+			// function-level context (attributes, locals, signature): the same for the function and its twin
+			ds, inner, ctxClass := r.u64(), build, ""
+			build = func(g *rng) *ir.Function {
+				fn := inner(g)
+				ctxClass = c01Decorate(fn, &rng{s: ds})
+				return fn
+			}
 			gs := r.u64()
 			fn := build(&rng{s: gs})
 			c, ok, why := c01RunPipeline(fn)
+			c.contextClass = ctxClass
 			if !ok {
 				stats[why]++
 				continue
@@ -693,6 +766,7 @@ func init() {
 				if c.nMoveVirtRestricted > 0 {
 					stats["bound:functions_with_regmove_virt_restricted"]++
 				}
+				c01ContextStats(stats, "bound:", &c)
 				if rcopy {
 					stats["bound:rcopy_functions"]++
 				} else {
